@@ -26,7 +26,7 @@ import (
 
 // Packages (relative to the repo root) whose files are rewritten. Each has a
 // verifYield(site string) function under the verif tag.
-var Packages = []string{"modeling", "modeling/marching", "generator/graph", "nodes"}
+var Packages = []string{"modeling", "modeling/marching", "generator/graph", "generator/parameter", "nodes"}
 
 // methods that are scheduling-relevant, per kind of synchronisation object
 var methodsOf = map[string]map[string]bool{
